@@ -1,5 +1,6 @@
 #!/bin/sh
-# usage: tools/selftest.sh [pattern]
+# usage: tools/selftest.sh [pattern]      (sequential)
+#        tools/selftest.sh --par N        (N mutants at a time; same results file)
 # Tests the checker both ways on scratch copies of /repo (outside /repo and /verif, removed after each):
 #   mutants/break-*.diff  must make at least one check report a violation (and name the expected rule
 #                         when mutants/expect.txt lists one);
@@ -8,8 +9,19 @@
 # source; nothing of the library is executed.
 set -u
 cd /verif
+if [ "${1:-}" = "--par" ]; then
+  N=${2:-3}
+  ls mutants/*.diff | xargs -P "$N" -I{} sh -c 'b=$(basename {} .diff); SELFTEST_ONE=1 tools/selftest.sh "$b.diff" > /tmp/selftest.$b.out 2>&1'
+  OUT=mutants/RESULTS.md
+  { echo "# Self-test over /verif/mutants ($(date -u +%Y-%m-%d))"; echo; echo "| mutant | expectation | checks that fired (rules) | verdict |"; echo "|--------|-------------|---------------------------|---------|"; cat /tmp/selftest.*.row 2>/dev/null | sort; } > "$OUT"
+  cat /tmp/selftest.*.out | grep -E ": (ok|MISSED|FALSE-ALARM|skipped)" | sort
+  bad=$(grep -c -E "MISSED|FALSE-ALARM" "$OUT")
+  rm -f /tmp/selftest.*.out /tmp/selftest.*.row
+  [ "$bad" = 0 ]; exit $?
+fi
 PAT=${1:-}
 OUT=mutants/RESULTS.md.tmp
+[ -n "${SELFTEST_ONE:-}" ] && OUT=/tmp/selftest.$(basename "$PAT" .diff).tmp
 : > "$OUT"
 echo "# Self-test over /verif/mutants ($(date -u +%Y-%m-%d))" >> "$OUT"
 echo >> "$OUT"
@@ -41,5 +53,6 @@ for m in mutants/*.diff; do
   echo "| $b | $exp | ${fired:-—} (${rules:-—}) | $v |" >> "$OUT"
   echo "$b: $v  [$fired] [$rules]"
 done
+if [ -n "${SELFTEST_ONE:-}" ]; then grep "^| " "$OUT" | grep -v "^| mutant\|^|---" > /tmp/selftest.$(basename "$PAT" .diff).row; rm -f "$OUT"; exit $bad; fi
 mv "$OUT" mutants/RESULTS.md
 exit $bad
